@@ -130,7 +130,7 @@ theorem bindArgs_eq_pyBindGo (c : ECfg S) (l : Live S.V) (pos : List S.V) (kws :
         (match pyBindGo (S := S) (fun r d => S.eval (Env.update (evalCtx S c.cx l.vars l.scopes.head?) r) d)
                 kws ps (pos.drop k) res with
           | .ok r => .ok r
-          | .error (.defaultFailed e) => .error e.toExc
+          | .error (.defaultFailed p e) => .error (defaultFailed p e)
           | .error (.missing p) => .error ⟨.valueError, "Required parameter '" ++ p ++ "' not provided"⟩
           | .error _ => .error ⟨.other, ""⟩) := by
   intro ps
@@ -233,7 +233,7 @@ variable {S : Sem}
 /-- how the engine reports a reference-rule outcome -/
 def bindOutcome : Except BindErr (Env S.V) → Except Exc (Env S.V)
   | .ok r => .ok r
-  | .error (.defaultFailed e) => .error e.toExc
+  | .error (.defaultFailed p e) => .error (defaultFailed p e)
   | .error (.missing p) => .error ⟨.valueError, "Required parameter '" ++ p ++ "' not provided"⟩
   | .error _ => .error ⟨.other, ""⟩
 
@@ -292,7 +292,7 @@ theorem validated_bind_never_missing (c : ECfg S) (l : Live S.V) (params : List 
     (hreq : ∀ (i : Nat) (p : Param), params[i]? = some p → p.default = none →
       i < pos.length ∨ p.name ∈ kws.map (·.1)) :
     ∀ e, bindArgs c l params (argDict pos kws) 0 [] = .error e →
-      ∃ pe, e = PyErr.toExc pe := by
+      ∃ p pe, e = defaultFailed p pe := by
   intro e he
   rw [bind_eq_pyCall c l params pos kws hv hnd, pyCall_of_valid _ _ _ _ hv] at he
   -- generalise over the suffix of parameters still to bind
@@ -300,7 +300,7 @@ theorem validated_bind_never_missing (c : ECfg S) (l : Live S.V) (params : List 
       params = ps0 ++ ps → ps0.length = k →
       bindOutcome (pyBindGo (S := S)
         (fun r d => S.eval (Env.update (evalCtx S c.cx l.vars l.scopes.head?) r) d) kws ps (pos.drop k) res) = .error e →
-      ∃ pe, e = PyErr.toExc pe := by
+      ∃ p pe, e = defaultFailed p pe := by
     intro ps
     induction ps with
     | nil => intro k ps0 res _ _ h; simp [pyBindGo, bindOutcome] at h
@@ -349,7 +349,7 @@ theorem validated_bind_never_missing (c : ECfg S) (l : Live S.V) (params : List 
             | error pe =>
               rw [hev] at h
               simp only [bindOutcome] at h
-              exact ⟨pe, by injection h with h; exact h.symm⟩
+              exact ⟨p.name, pe, by injection h with h; exact h.symm⟩
             | ok v =>
               rw [hev] at h
               simp only at h
